@@ -429,6 +429,36 @@ def layoutBytes (C : Codecs) (env : Env) (l : List Slot) : Bytes := l.flatMap (s
 def Cmd.subTypes (c : Cmd) : List String :=
   c.marshal.filterMap (fun s => match s with | .sub _ _ t => some t | _ => none)
 
+/-! ### slot locality: where a fixed-width field sits in the encoded command -/
+
+/-- does a marshal statement of the straight-line fragment read or write field `f`
+    (statements outside the fragment: conservatively yes) -/
+def MStmt.mentions (f : String) : MStmt → Bool
+  | .int _ _ _ g | .quad _ _ _ g | .u8 _ g | .bytes _ g | .arr _ g | .sub _ g _ | .setFmt g _ => g == f
+  | .assignLen g h _ => g == f || h == f
+  | _ => true
+
+/-- offset and width of the first fixed-width slot of field `f` in a block's slot list, provided
+    every slot in front of it has a fixed width (`off`: bytes in front of the list) -/
+def slotAt (f : String) : List Slot → Nat → Option (Nat × Nat)
+  | [], _ => none
+  | .int _ w _ g :: r, off => if g == f then some (off, w) else slotAt f r (off + w)
+  | .u8 _ g :: r, off => if g == f then some (off, 1) else slotAt f r (off + 1)
+  | _ :: _, _ => none
+
+/-- byte range `[lo, hi)` of a fixed-width parameter field's slot inside the encoded command: defined
+    when the marshal program is straight-line, exactly one statement touches the field, and only
+    fixed-width slots precede it in the parameter block (then the offset does not depend on values) -/
+def slotRange (c : Cmd) (f : String) : Option (Nat × Nat) :=
+  if (c.marshal.filter (·.mentions f)).length != 1 then none else
+  match layoutM c.marshal with
+  | none => none
+  | some m =>
+    match slotAt f (m.filter (·.blk == .P)) 0 with
+    | some (off, w) =>
+      some (1 + (andxBytes c.isAndX).length + off, 1 + (andxBytes c.isAndX).length + off + w)
+    | none => none
+
 /-- value of an integer expression over a field assignment (before any decoding) -/
 def evalEnv (env : Env) : Expr → Option Nat
   | .lit n => some n
